@@ -637,13 +637,16 @@ func cloneConsumerGroup(group *metadatapb.ConsumerGroup) *metadatapb.ConsumerGro
 		Leader:       group.Leader,
 		GenerationId: group.GenerationId,
 		Members:      make(map[string]*metadatapb.GroupMember, len(group.Members)),
+
+		RebalanceTimeoutMs: group.RebalanceTimeoutMs,
 	}
 	for memberID, member := range group.Members {
 		cloned := &metadatapb.GroupMember{
-			ClientId:      member.ClientId,
-			ClientHost:    member.ClientHost,
-			HeartbeatAt:   member.HeartbeatAt,
-			Subscriptions: append([]string(nil), member.Subscriptions...),
+			ClientId:         member.ClientId,
+			ClientHost:       member.ClientHost,
+			HeartbeatAt:      member.HeartbeatAt,
+			Subscriptions:    append([]string(nil), member.Subscriptions...),
+			SessionTimeoutMs: member.SessionTimeoutMs,
 		}
 		if len(member.Assignments) > 0 {
 			cloned.Assignments = make([]*metadatapb.Assignment, 0, len(member.Assignments))
